@@ -18,7 +18,7 @@ RULE = ('case = up to 6 requests with patterns sharing prefixes of length 1..4 a
         '(request script, loss script, observed transmission-time vector).')
 ASSUMPTIONS = ['virtual time: library processing takes zero time, so retransmission instants are exact',
                'two requests with identical patterns pending at once are not generated (the library keys timers by pattern)']
-REQUIRED = ['mon.delivery_guarantee_flags_of_stream_drivers_checked', 'mon.links_closed_at_the_instant_a_retry_timer_expires_and_reopened_at_once', 'mon.answers_handed_out_by_the_driver_of_a_closed_session', 'mon.pairs_of_requests_pending_with_the_same_expectation', 'mon.answers_that_were_the_first_packet_the_object_ever_received',
+REQUIRED = ['mon.requests_sent_from_the_error_callback_after_reopening_there', 'mon.delivery_guarantee_flags_of_stream_drivers_checked', 'mon.links_closed_at_the_instant_a_retry_timer_expires_and_reopened_at_once', 'mon.answers_handed_out_by_the_driver_of_a_closed_session', 'mon.pairs_of_requests_pending_with_the_same_expectation', 'mon.answers_that_were_the_first_packet_the_object_ever_received',
             'mon.set_up_requests_of_the_library_on_a_link_without_delivery_guarantee',
             'mon.cases_with_a_second_crazyflie_object_waiting_for_the_same_answer',
             'mon.requests_issued_from_the_callback_of_the_previous_answer_with_the_same_expectation',
@@ -41,6 +41,7 @@ def cases(tier, seed):
                     'sched': rnd.choice(('rtb', 'random', 'pct')), 'quarter': rnd.randint(0, 11)})
     out += [{'seed': seed * 11 + i, 'kind': ('failopen', 'lostreopen')[i % 2], 'sched': rnd.choice(('rtb', 'random', 'pct'))}
             for i in range(60 if tier == 'quick' else 400)]
+    out += [{'seed': seed * 23 + i, 'kind': 'cbreopen', 'sched': rnd.choice(('rtb', 'random', 'pct'))} for i in range(40 if tier == 'quick' else 300)]
     out += [{'seed': seed * 13 + i, 'kind': 'firstreply', 'sched': rnd.choice(('rtb', 'random', 'pct'))} for i in range(24 if tier == 'quick' else 200)]
     out += [{'seed': seed * 17 + i, 'kind': 'twins', 'sched': rnd.choice(('rtb', 'random', 'pct'))} for i in range(24 if tier == 'quick' else 200)]
     out += [{'seed': seed * 19 + i, 'kind': 'latepk', 'sched': ('random', 'pct', 'pct', 'rtb')[i % 4]} for i in range(240 if tier == 'quick' else 1500)]
@@ -205,12 +206,18 @@ def run_lost(desc, ctx):
     from cflib.crtp.crtpstack import CRTPPacket
     rnd = random.Random(desc['seed'])
     prof = gen.profile(desc['seed'], 1, 1, proto=10)
-    early = desc['kind'] == 'failopen'
+    cbreopen = desc['kind'] == 'cbreopen'
+    early = desc['kind'] == 'failopen' or (cbreopen and desc['seed'] % 2 == 1)
     reqs = []
     for i in range(rnd.randint(1, 4)):
         reqs.append({'uid': 200 + i, 'chan': rnd.randrange(4), 'pattern': [rnd.randrange(1, 250) for _ in range(rnd.randint(1, 3))],
                      'T': rnd.choice((0.05, 0.2, 0.2, 1.0)), 'lose_tx': 0, 'lose_reply': 0, 'delay': None, 'reply': b''})
-    dev = Responder(prof, {r['uid']: r for r in reqs})
+    # 'cbreopen': the application opens the link again from inside the callback that tells it about the error, and sends
+    # a request of the NEW session there; that request loses its first transmissions and must be retried until answered
+    newpat = [rnd.randrange(1, 250) for _ in range(rnd.randint(1, 3))]
+    newreq = {'uid': 250, 'chan': rnd.randrange(4), 'pattern': newpat, 'T': rnd.choice((0.05, 0.1, 0.2)), 'lose_tx': rnd.randint(1, 3),
+              'lose_reply': 0, 'delay': 0.0, 'reply': bytes(newpat) + b'\x07'}
+    dev = Responder(prof, {r['uid']: r for r in reqs + ([newreq] if cbreopen else [])})
     spec = simlink.LinkSpec(dev, needs_resending=True, latency=0.0)
     uri = 'sim://c10lost'
     simlink.SIMS[uri] = spec
@@ -224,6 +231,25 @@ def run_lost(desc, ctx):
         cf.connection_failed.add_callback(lambda u, m: failed.set())
         cf.connection_lost.add_callback(lambda u, m: lost.set())
         spec.fail_reporter = rnd.choice(('driver', 'sender'))
+        dev.get_link = lambda: cf.link
+
+        def reopen_in_callback(u, m):
+            if ob.get('reopen_at') is not None:
+                return
+            spec.tx_filter = None
+            spec.fail_after_tx = None
+            ob['reopen_at'] = s.now
+            ob['error_at'] = s.now
+            done.clear()
+            cf.open_link(uri)
+            pk = CRTPPacket()
+            pk.set_header(PORT, newreq['chan'])
+            pk.data = bytes(newreq['pattern']) + bytes([newreq['uid']])
+            cf.send_packet(pk, expected_reply=tuple(newreq['pattern']), timeout=newreq['T'])
+            ob['new_request_sent_in_session'] = cf.link.session if cf.link is not None else None
+        if cbreopen:
+            cf.connection_lost.add_callback(reopen_in_callback)
+            cf.connection_failed.add_callback(reopen_in_callback)
         if early:
             # the Crazyflie is not there: nothing is ever received, the driver gives up after some transmissions
             spec.tx_filter = lambda sp, n, h, d: False
@@ -237,11 +263,16 @@ def run_lost(desc, ctx):
             s.sleep(0.35)
         ob['session1'] = cf.link.session if cf.link is not None else None
         ob['t_base'] = s.now
+        ob['judged'] = set()
         for r in reqs:
+            if ob.get('reopen_at') is not None:
+                break        # reopened from the callback already: what is sent from here on belongs to the new session
             pk = CRTPPacket()
             pk.set_header(PORT, r['chan'])
             pk.data = bytes(r['pattern']) + bytes([r['uid']])
             cf.send_packet(pk, expected_reply=tuple(r['pattern']), timeout=r['T'])
+            if ob.get('reopen_at') is None:
+                ob['judged'].add(r['uid'])      # handed over completely while the first session was the current one
         T0 = reqs[0]['T']
         if early:
             if not failed.wait(60.0):
@@ -257,14 +288,15 @@ def run_lost(desc, ctx):
             if not lost.wait(60.0):
                 ob['problems'].append('the lost link was never reported')
                 return
-        ob['error_at'] = s.now
-        ob['state_after_error'] = str(cf.state)
-        s.sleep(rnd.choice((0.0, T0 / 4.0, T0 / 2.0, T0 * 0.75)))
-        spec.tx_filter = None
-        spec.fail_after_tx = None
-        ob['reopen_at'] = s.now
-        done.clear()
-        cf.open_link(uri)
+        if not cbreopen:
+            ob['error_at'] = s.now
+            ob['state_after_error'] = str(cf.state)
+            s.sleep(rnd.choice((0.0, T0 / 4.0, T0 / 2.0, T0 * 0.75)))
+            spec.tx_filter = None
+            spec.fail_after_tx = None
+            ob['reopen_at'] = s.now
+            done.clear()
+            cf.open_link(uri)
         if not done.wait(300.0):
             ob['problems'].append('second connect failed')
             return
@@ -287,11 +319,26 @@ def run_lost(desc, ctx):
     if ob['problems']:
         ctx.violate('retry:lost-session:' + ob['problems'][0].replace(' ', '-'), {'kind': desc['kind']}, replay=rp)
         return
-    uids = {r['uid'] for r in reqs}
+    uids = {r['uid'] for r in reqs if r['uid'] in ob.get('judged', ())}
     mine = [t for t in spec.tx if (t[2] >> 4) & 0xF == PORT and t[3] and t[3][-1] in uids]
     ctx.count('mon.requests', len(reqs))
     ctx.count('mon.retransmissions_observed', max(0, len([t for t in mine if t[1] == ob['session1']]) - len(reqs)))
     later = [t for t in mine if t[1] != ob['session1']]
+    if cbreopen:
+        new_tx = [t for t in spec.tx if (t[2] >> 4) & 0xF == PORT and t[3] and t[3][-1] == newreq['uid']]
+        ctx.count('mon.requests_sent_from_the_error_callback_after_reopening_there')
+        want = newreq['lose_tx'] + 1
+        info = {'transmissions': [(round(t[0] - ob['reopen_at'], 6), t[1]) for t in new_tx[:8]], 'lost_transmissions': newreq['lose_tx'],
+                'timeout': newreq['T'], 'how_the_session_ended': 'connection attempt failed' if early else 'link lost while connected',
+                'reporter': spec.fail_reporter}
+        # the answer counts from the moment the driver hands it to the library (the packet thread may still sleep up to a
+        # second after the error before it looks at the new link: retransmissions until then are correct)
+        answers = [t for t in spec.rx if (t[2] >> 4) & 0xF == PORT and bytes(t[3]) == newreq['reply']]
+        info['answer_handed_over_at'] = round(answers[0][0] - ob['reopen_at'], 6) if answers else None
+        if len(new_tx) < want or not answers:
+            ctx.violate('retry:unanswered-request-of-the-session-opened-in-the-error-callback-not-retransmitted', info, replay=rp)
+        elif any(t[0] > answers[0][0] + 1e-6 for t in new_tx):
+            ctx.violate('retry:retransmitted-after-the-answer:request-of-the-session-opened-in-the-error-callback', info, replay=rp)
     ctx.nontrivial((desc['kind'], core.h64([(r['pattern'], r['T']) for r in reqs]), s.signature()))
     if later:
         ctx.violate('retry:request-of-an-earlier-session-transmitted-in-a-later-session',
@@ -515,7 +562,7 @@ def run(desc, ctx):
         return run_twins(desc, ctx)
     if desc.get('kind') == 'firstreply':
         return run_firstreply(desc, ctx)
-    if desc.get('kind') in ('failopen', 'lostreopen'):
+    if desc.get('kind') in ('failopen', 'lostreopen', 'cbreopen'):
         return run_lost(desc, ctx)
     if desc.get('kind') == 'radioflag':
         return run_radioflag(desc, ctx)
